@@ -125,17 +125,23 @@ Section Spec.
     | PPanic => Panic
     end.
 
-  (* chain: its first success; an error when there is none (never "no result") *)
-  Fixpoint spec_chain (rs : list (result A)) : result A :=
+  (* chain: its first success; an error when there is none - the members' errors
+     joined, or, for a chain without members, an error of its own *)
+  Fixpoint spec_chain_members (rs : list (result A)) : result A :=
     match rs with
     | [] => Err []
     | Ok a :: _ => Ok a
     | Err e :: rest =>
-      match spec_chain rest with
+      match spec_chain_members rest with
       | Err e' => Err (e ++ e')
       | r => r
       end
     | r :: _ => r
+    end.
+  Definition spec_chain (rs : list (result A)) : result A :=
+    match rs with
+    | [] => Err [EChainEmpty]
+    | _ => spec_chain_members rs
     end.
 
   (* where the designated entry of a rightmost strategy lies: the strategy is
